@@ -582,7 +582,7 @@ def explore(ck, np, oem, n_float, n_int, frac_model):
 
 def main():
     ck = vlib.Check(PROP, pkg="oem", props="Proofs.Props.C17", driver=None,
-                    lemma_files=["Proofs/Lemmas/Oem.lean"], model_files=["GenReal/Oem.lean"],
+                    lemma_files=["Proofs/Lemmas/Oem.lean", "Proofs/Lemmas/OemSpectrum.lean", "Proofs/Lemmas/OemLimits.lean"], model_files=["GenReal/Oem.lean"],
                     trusted=["tools/py2lean/py2lean_matrix.py + gen_oem.py (translator): the emitted Lean term is the exact real-matrix reading of the Python expression "
                              "(`@` ↦ Matrix product / mulVec, `.T` ↦ transpose, scipy.linalg.inv ↦ Matrix.inv under IsUnit det); validated each run by evaluating the "
                              "SAME expression trees in exact Fractions (GenFrac/oem_frac.py) against the real code on integer matrices, and pinned by the normal-form lemmas "
